@@ -297,7 +297,7 @@ def _check_nodes_loop(ctx, f):
                 nm = tg.func.name
                 args = [eng.ev(a, f, st) for a in ev.node.args]
                 if nm == "nearest_right":
-                    pre = ("call", tg.func.qual, (eng.ev(tg.recv, f, st),) + tuple(args), ())
+                    pre = eng.ev(ev.node, f, st)
                 if nm == "traverse" and tg.func.cls.name == "HexaryTrie":
                     seen["traverse"] += 1
                     a0 = ev.node.args[0] if len(ev.node.args) == 1 else None
@@ -307,6 +307,26 @@ def _check_nodes_loop(ctx, f):
                         problems.append("traverse() is not called with the chosen prefix")
                 if nm == "traverse_from" and tg.func.cls.name == "HexaryTrie":
                     seen["traverse_from"] += 1
+                    # what the cache returned for the chosen prefix: (parent node, remaining path), in that order
+                    gets = [e2 for e2 in st.events if e2.k == "call" and e2.a == "ok" and isinstance(e2.node, ast.Call)
+                            and any(t.kind == "def" and t.func.name == "get" and t.func.cls is not None and t.func.cls.name == "TrieFrontierCache"
+                                    for t in ctx.R.resolve_call(e2.node, f, count=False))]
+                    if gets:
+                        g0 = eng.ev(gets[0].node, f, st)
+                        if args != [("sub", g0, C(0)), ("sub", g0, C(1))]:
+                            problems.append("traverse_from() is called with `%s`; the cache returns (parent node, remaining path), which must be passed on in that order" % ", ".join(tstr(a)[:30] for a in args))
+                    else:
+                        problems.append("traverse_from() is used without a cache lookup for the chosen prefix")
+                if nm == "add" and tg.func.cls is not None and tg.func.cls.name == "TrieFrontierCache":
+                    seen["cache-add"] = seen.get("cache-add", 0) + 1
+                    def bound_to(a_, names):
+                        bs_ = ctx.E.bindings(f).get(a_.id, []) if isinstance(a_, ast.Name) else []
+                        return bool(bs_) and all(isinstance(b, ast.Call) and any(t.kind == "def" and t.func.name in names for t in ctx.R.resolve_call(b, f, count=False)) for b in bs_)
+                    aa = ev.node.args
+                    okadd = len(aa) == 3 and bound_to(aa[0], ("nearest_right",)) and bound_to(aa[1], ("traverse", "traverse_from")) \
+                        and isinstance(aa[2], ast.Attribute) and aa[2].attr == "sub_segments" and isinstance(aa[2].value, ast.Name) and aa[2].value.id == aa[1].id
+                    if not okadd:
+                        problems.append("cache.add(%s) does not register (chosen prefix, the node just loaded, its sub_segments)" % ", ".join(tstr(a)[:25] for a in args))
                 if nm == "explore":
                     seen["explore"] += 1
                     if len(args) == 2 and not (args[1][0] == "attr" and args[1][2] == "sub_segments"):
@@ -942,3 +962,194 @@ def prov1b(ctx, pid):
         ctx.ok(c, h.loc(), "per position: high - low with a missing low nibble read as 15 and a missing high nibble as 0 (zip_longest)")
     else:
         ctx.bad(c, h.loc(), "_prefix_distance yields %s" % {str(k): tstr(v)[:40] for k, v in rows.items()})
+
+
+# ---------------------------------------------------------------------------
+@rule("ITERTAB", ["C10"])
+def itertab(ctx, pid):
+    """Outcome tables of NodeIterator.next / _get_key_after / _get_next_key: for every return path the facts the
+    path establishes select the row of the reference table, and the returned term must be that row's value."""
+    from .hextab import Facts, Undecided, Mismatch
+    NONE = C(None)
+
+    def isnone(q, t, what):
+        for op, l, r in q.rels:
+            if l == t and r == NONE and op in ("is", "isnot", "==", "!="):
+                return op in ("is", "==")
+        raise Undecided(what)
+
+    def ref_next_key(q):
+        if q.truth.get(q.ref("node.value")) is True:
+            return q.ref("traversed + node.suffix")
+        if q.truth.get(q.ref("node.value")) is None:
+            raise Undecided("whether the node holds a value")
+        segs = q.ref("node.sub_segments")
+        lo, hi = q.eng.len_of(segs, q.st.facts)
+        if hi == 0:
+            return NONE
+        if lo < 1:
+            raise Undecided("whether the node has children")
+        return q.ref("self._get_next_key(self._trie.traverse_from(node, node.sub_segments[0]), traversed + node.sub_segments[0])")
+
+    def ref_key_after(q):
+        if any(ev.k == "stmt" and isinstance(ev.node, ast.Break) for ev in q.st.events):
+            raise Mismatch("the scan of the sub-segments is left by `break`: segments further to the right are never looked at")
+
+        def tail():
+            suf = q.ref("node.suffix")
+            key = ("p", q.f.params[2])
+            if (">", suf, key) in q.rels:
+                return q.ref("traversed + node.suffix")
+            if (">=", key, suf) in q.rels:
+                return NONE
+            raise Undecided("whether the node's own suffix lies to the right of the key")
+        segs = q.ref("node.sub_segments")
+        seg = ("iter", segs, 0)
+        if not any(ev.k == "loop" for ev in q.st.events):
+            return tail()
+        head = q.ref("key[:len(S)]", S=seg)
+        if (">", head, seg) in q.rels:
+            return tail()
+        if (">=", seg, head) not in q.rels:
+            raise Undecided("whether the segment lies to the left of the key")
+        nn = q.ref("self._trie.traverse_from(node, S)", S=seg)
+        ccp = q.ref("consume_common_prefix(key, S)", S=seg)
+        sr = ("sub", ccp, C(2))
+        lo, hi = q.eng.len_of(sr, q.st.facts)
+        if hi == 0:
+            nk = q.ref("self._get_key_after(X, R, traversed + S)", X=nn, R=("sub", ccp, C(1)), S=seg)
+            if isnone(q, nk, "whether the subtree held a key to the right"):
+                return tail()
+            return nk
+        if lo >= 1:
+            return q.ref("self._get_next_key(X, traversed + S)", X=nn, S=seg)
+        raise Undecided("whether the segment is fully matched by the key")
+
+    def ref_next(q):
+        kb = ("p", q.f.params[1])
+        root = q.ref("self._trie.root_node")
+        start = q.ref("Nibbles(())")
+        if isnone(q, kb, "whether a start key was given"):
+            nk = q.ref("self._get_next_key(R, Z)", R=root, Z=start)
+        else:
+            nk = q.ref("self._get_key_after(R, bytes_to_nibbles(key_bytes), Z)", R=root, Z=start)
+        if isnone(q, nk, "whether a key was found"):
+            return NONE
+        return q.ref("nibbles_to_bytes(X)", X=nk)
+
+    for name, reff, min_rows, unroll in (("next", ref_next, 4, None), ("_get_key_after", ref_key_after, 7, 1), ("_get_next_key", ref_next_key, 3, None)):
+        f = ctx.P.func(ITER + "." + name)
+        probs, unsure = [], []
+        rows = 0
+        for p, st in pq.states(ctx, f, unroll=unroll):
+            if p.exit[0] != "return":
+                continue
+            q = Facts(ctx, f, st)
+            try:
+                want = reff(q)
+            except Undecided as u:
+                unsure.append((p.exit[1], "a path returns `%s` without deciding %s" % (tstr(st.ret)[:60], u.what)))
+                continue
+            except Mismatch as m:
+                probs.append((p.exit[1], str(m)))
+                continue
+            rows += 1
+            if st.ret != want:
+                probs.append((p.exit[1], "returns `%s`; under the conditions of this path the result has to be `%s`" % (tstr(st.ret)[:110], tstr(want)[:110])))
+        c = "outcome-table:%s" % fkey(f)
+        if probs:
+            node, why = probs[0]
+            ctx.bad(c, f.loc(node), why, witness={"problems": sorted({w for _, w in probs})[:6]})
+        elif unsure:
+            ctx.unsure(c, f.loc(unsure[0][0]), unsure[0][1])
+        elif rows < min_rows:
+            ctx.unsure(c, f.loc(), "only %d return paths were classified, %d were confirmed by hand" % (rows, min_rows))
+        else:
+            ctx.ok(c, f.loc(), "%d return paths: every returned value is the one the reference table gives for the path's conditions" % rows)
+
+
+@rule("FOGPOL", ["C11"])
+def fogpol(ctx, pid):
+    """Polarity of the fog's refusals and of __eq__ (the shape rules above find the tests; this rule decides on
+    which side of each test the refusal sits): explore refuses exactly when the segment list has duplicates,
+    mark_all_complete exactly when the prefix is not in the copy, deserialize exactly when the marker prefix is
+    missing; __eq__ is False for other types and set equality otherwise."""
+    eng = S(ctx)
+
+    def local_refusal(p):
+        return p.exit[0] == "raise" and pq.local_raise(p) is not None
+
+    # ---- explore: duplicates
+    f = ctx.P.func(FOG + ".explore")
+    rows = set()
+    for p, st in pq.states(ctx, f):
+        for t, pol, _ in st.log:
+            r = rel_norm(t, pol)
+            if r and r[0] in ("==", "!=") and {r[1][0], r[2][0]} == {"len"} and any(x[1][0] == "call" and x[1][1] == "ext:set" for x in (r[1], r[2])):
+                # is this the last thing the path learnt before a local refusal?
+                last = st.log[-1][0] is t
+                rows.add((r[0], "refuse" if (local_refusal(p) and last) else "go on"))
+    c = "duplicates-polarity:HexaryTrieFog.explore"
+    if rows == {("!=", "refuse"), ("==", "go on")}:
+        ctx.ok(c, f.loc(), "len(set(segments)) != len(segments) -> ValidationError; equal -> goes on")
+    else:
+        ctx.bad(c, f.loc(), "the duplicate test behaves as %s; expected {differs: ValidationError, equal: go on}" % sorted(rows))
+    # ---- mark_all_complete: membership
+    g = ctx.P.func(FOG + ".mark_all_complete")
+    rows = set()
+    for p in ctx.X.paths(g, 1):
+        member = None
+        removed = False
+        for ev in p.events:
+            if ev.k == "assume" and isinstance(ev.node, ast.Compare) and len(ev.node.ops) == 1 and isinstance(ev.node.ops[0], (ast.In, ast.NotIn)):
+                member = ev.a if isinstance(ev.node.ops[0], ast.In) else not ev.a
+            if ev.k == "call" and ev.a == "ok" and isinstance(ev.node, ast.Call) and isinstance(ev.node.func, ast.Attribute) and ev.node.func.attr in ("remove", "discard"):
+                removed = True
+        if member is None or (p.exit[0] == "raise" and not local_refusal(p)):
+            continue
+        rows.add((member, "refuse" if local_refusal(p) else ("remove" if removed else "nothing")))
+    c = "membership-polarity:HexaryTrieFog.mark_all_complete"
+    if rows == {(True, "remove"), (False, "refuse")}:
+        ctx.ok(c, g.loc(), "a listed prefix that is unexplored is removed, any other is refused with ValidationError")
+    else:
+        ctx.bad(c, g.loc(), "mark_all_complete behaves as %s; expected {member: remove, not a member: ValidationError}" % sorted(rows, key=str))
+    # ---- deserialize: marker
+    d = ctx.P.func(FOG + ".deserialize")
+    rows = set()
+    for p in ctx.X.paths(d):
+        sw = None
+        for ev in p.events:
+            if ev.k == "assume" and isinstance(ev.node, ast.Call) and isinstance(ev.node.func, ast.Attribute) and ev.node.func.attr == "startswith":
+                sw = ev.a
+        if sw is None:
+            continue
+        if p.exit[0] == "raise" and not local_refusal(p):
+            continue
+        rows.add((sw, "refuse" if local_refusal(p) else "parse"))
+    c = "marker-polarity:HexaryTrieFog.deserialize"
+    if rows == {(True, "parse"), (False, "refuse")}:
+        ctx.ok(c, d.loc(), "input without the marker prefix is refused with ValueError, input with it is parsed")
+    else:
+        ctx.bad(c, d.loc(), "deserialize behaves as %s; expected {marker present: parse, absent: ValueError}" % sorted(rows, key=str))
+    # ---- __eq__
+    e = ctx.P.func(FOG + ".__eq__")
+    o = ("p", e.params[1])
+    inst = ("call", "ext:isinstance", (o, ("cls", FOG)), ())
+    rows = set()
+    for p, st in pq.states(ctx, e):
+        if p.exit[0] != "return":
+            continue
+        v = None
+        for t, pol, _ in st.log:
+            tt, pp = truth_norm(t, pol)
+            if tt == inst:
+                v = pp
+        rows.add((v, st.ret))
+    unexp = ("attr", ("self",), "_unexplored_prefixes")
+    want = {(False, C(False)), (True, ("cmp", "==", unexp, ("attr", o, "_unexplored_prefixes")))}
+    want2 = {(False, C(False)), (True, ("cmp", "==", ("attr", o, "_unexplored_prefixes"), unexp))}
+    c = "eq-table:HexaryTrieFog.__eq__"
+    if rows in (want, want2):
+        ctx.ok(c, e.loc(), "False for other types, equality of the unexplored sets otherwise")
+    else:
+        ctx.bad(c, e.loc(), "__eq__ behaves as %s; expected {not a fog: False, a fog: equality of the unexplored sets}" % sorted((k, tstr(v)[:50]) for k, v in rows))
